@@ -24,7 +24,7 @@ REFUSED = hashlib.sha256(b"NotImplementedError").hexdigest()
 ROOT = os.path.dirname(os.path.dirname(os.path.dirname(os.path.abspath(__file__))))
 
 
-def run_child(history, hashseed, timeout=1500):
+def run_child(history, hashseed, timeout=400):
     env = dict(os.environ)
     env["PYTHONHASHSEED"] = str(hashseed)
     p = subprocess.run([sys.executable, "-m", "vf.props.c09_child", json.dumps(history)], cwd=ROOT, env=env, capture_output=True, text=True, timeout=timeout)
@@ -55,12 +55,17 @@ def task_history(params, rec):
         if k not in canon:
             continue
         if canon[k] != d:
-            # fetch both texts for a diff witness
-            diff = ""
+            # fetch both texts for a diff witness (once per history: each fetch costs two generations)
+            diff = "(diff fetched for the first differing key of this history only)"
+            nmis = rec.viol_counts.get("text-differs-from-canonical", 0)
             try:
+                if nmis > 0:
+                    raise StopIteration
                 a = run_child(dict(order="sorted", keys=[k], texts=True), 0)["texts"].get(k, "")
-                b = run_child(dict(h, keys=None, texts=True), params["hashseed"])["texts"].get(k, "")
+                b = run_child(dict(h, keys=[k], texts=True), params["hashseed"])["texts"].get(k, "")
                 diff = "\n".join(list(difflib.unified_diff(a.splitlines(), b.splitlines(), "canonical", "history", lineterm="", n=1))[:40])
+            except StopIteration:
+                pass
             except Exception as e:
                 diff = f"(diff unavailable: {e})"[:200]
             rec.violation("text-differs-from-canonical", dict(desc, key=k, diff=diff[:3000]))
